@@ -228,7 +228,7 @@ def _show(x, c):
         while i < len(x):
             if x[i] == PH_START and i + 2 < len(x) and x[i + 2] == PH_END:
                 k = ord(x[i + 1]) - PH_BASE
-                out.append("<" + str(c.terms[k].t) + ">")
+                out.append("<" + (str(c.terms[k].t) if hasattr(c.terms[k], "t") else repr(c.terms[k])) + ">")
                 i += 3
             else:
                 out.append(x[i])
@@ -240,4 +240,6 @@ def _show(x, c):
         return {str(_show(k, c)): _show(v, c) for k, v in x.items()}
     if hasattr(x, "t"):
         return "<" + str(x.t) + ">"
+    if hasattr(x, "pieces"):
+        return repr(x)
     return x
